@@ -194,7 +194,7 @@ theorem putRejects_touch : ∀ (rejs : List (Bytes × Bytes)), RejsOut rejs → 
     · rename_i k hk
       have hk' : ¬ isPcKey k := hr (name, content) (List.mem_cons_self ..) k hk
       split at h
-      · cases h
+      · exact ih hrest _ _ h
       · split at h
         · exact ih hrest _ _ h
         · split at h
